@@ -239,8 +239,21 @@ class World:
             if fe is None:
                 return
             text, fv = fe
-            r = rng.randrange(3)
-            if r == 0 or not self.lists:
+            r = rng.randrange(5)
+            if r == 3 and self.lists:                 # a range of one item replaced: the new item travels like any other
+                name = rng.choice(sorted(self.lists))
+                i = rng.randrange(len(self.lists[name]))
+                sc.stmt(f"{name}[{i}:{i + 1}] = [{text}]")
+                self.lists[name][i] = fv
+                sc.tags.append("list-range-set")
+            elif r == 4 and self.lists:               # a slice is a list of the same items
+                src_l = rng.choice(sorted(self.lists))
+                name = self.fresh("l")
+                k = rng.randrange(1, len(self.lists[src_l]) + 1)
+                sc.stmt(f"{name} := {src_l}[0:{k}]")
+                self.lists[name] = list(self.lists[src_l][:k])
+                sc.tags.append("list-slice")
+            elif r == 0 or not self.lists:
                 name = self.fresh("l")
                 fe2 = self.fexpr()
                 sc.stmt(f"{name} := [{text}, {fe2[0]}]")
@@ -252,7 +265,7 @@ class World:
                 sc.stmt(f"{name}[{i}] = {text}")
                 self.lists[name][i] = fv
                 sc.tags.append("list-set")
-            elif r == 2 and rng.random() < 0.5:
+            elif r in (2, 3) and rng.random() < 0.5:
                 src_l = rng.choice(sorted(self.lists))
                 name = self.fresh("l")
                 sc.stmt(f"{name} := [{src_l}.., {text}]")
